@@ -2,11 +2,14 @@ package props
 
 import (
 	"context"
+	"fmt"
+	"math/big"
 	"sort"
 	"sync"
 	"time"
 
 	"github.com/DOSNetwork/core/dosnode"
+	"github.com/DOSNetwork/core/onchain"
 	"github.com/DOSNetwork/core/p2p"
 	vss "github.com/DOSNetwork/core/share/vss/pedersen"
 	"github.com/golang/protobuf/ptypes"
@@ -22,7 +25,11 @@ type qev struct {
 	kind int // 0 peer, 1 register, 2 cancel
 	id   int // request id index
 	x    int // share payload (peer)
+	gen  int // register / cancel: which registration of the id (0 = the first, 1 = a re-registration)
 }
+
+// a request handle (one registration: its own context and reply channel) is numbered id + nids*gen
+const c13Gens = 2
 
 // request ids: index 0 is the EMPTY id (request id 0 encodes to no bytes)
 var c13ids = [][]byte{{}, {0x01}, {0x02, 0x03}}
@@ -67,7 +74,7 @@ func c13Run(evs []qev, nids int) string {
 	if ch == nil {
 		return "H"
 	}
-	reqs := make([]*c13req, nids)
+	reqs := make([]*c13req, nids*c13Gens)
 	for i := range reqs {
 		ctx, cancel := context.WithCancel(context.Background())
 		r := &c13req{ctx: ctx, cancel: cancel, reply: make(chan *vss.Signature), done: make(chan struct{})}
@@ -115,7 +122,8 @@ func c13Run(evs []qev, nids int) string {
 		case 1:
 			okc := make(chan bool, 1)
 			go func(e qev) {
-				okc <- node.VerifRegister(context.Background(), reqs[e.id].ctx, string(c13ids[e.id]), 2, reqs[e.id].reply)
+				h := e.id + nids*e.gen
+				okc <- node.VerifRegister(context.Background(), reqs[h].ctx, string(c13ids[e.id]), 2, reqs[h].reply)
 			}(e)
 			select {
 			case <-okc:
@@ -129,8 +137,8 @@ func c13Run(evs []qev, nids int) string {
 			if r := barrier(); r != "" {
 				return r
 			}
-			reqs[e.id].cancel()
-			<-reqs[e.id].done
+			reqs[e.id+nids*e.gen].cancel()
+			<-reqs[e.id+nids*e.gen].done
 		}
 	}
 	if r := barrier(); r != "" {
@@ -144,7 +152,7 @@ func c13Run(evs []qev, nids int) string {
 		r.cancel()
 		<-r.done
 	}
-	out := make([]string, nids)
+	out := make([]string, len(reqs))
 	for i, r := range reqs {
 		r.mu.Lock()
 		xs := make([]string, len(r.got))
@@ -161,40 +169,39 @@ func c13Run(evs []qev, nids int) string {
 // is registered at some point, nothing otherwise; a cancelled request gets a prefix-consistent
 // subsequence (only what arrived/was flushed before the cancellation)
 func c13Expect(evs []qev, nids int) []string {
-	out := make([]string, nids)
-	for i := 0; i < nids; i++ {
-		registered, cancelledBeforeReg, cancelled := false, false, false
-		var pre, got []int
-		for _, e := range evs {
-			if e.id != i {
-				continue
-			}
-			switch e.kind {
-			case 0:
-				if registered {
-					if !cancelled {
-						got = append(got, e.x)
-					}
-				} else {
-					pre = append(pre, e.x)
+	nh := nids * c13Gens
+	got := make([][]int, nh)
+	cancelled := make([]bool, nh)
+	current := make([]int, nids) // the handle registered for the id now (-1: none)
+	pre := make([][]int, nids)   // arrivals not yet handed to any registration
+	for i := range current {
+		current[i] = -1
+	}
+	for _, e := range evs {
+		switch e.kind {
+		case 0:
+			if h := current[e.id]; h >= 0 {
+				if !cancelled[h] {
+					got[h] = append(got[h], e.x)
 				}
-			case 1:
-				if !registered {
-					registered = true
-					if !cancelled {
-						got = append(got, pre...)
-					} else {
-						cancelledBeforeReg = true
-					}
-					pre = nil
-				}
-			case 2:
-				cancelled = true
+			} else {
+				pre[e.id] = append(pre[e.id], e.x)
 			}
+		case 1:
+			h := e.id + nids*e.gen
+			current[e.id] = h
+			if !cancelled[h] {
+				got[h] = append(got[h], pre[e.id]...)
+			}
+			pre[e.id] = nil
+		case 2:
+			cancelled[e.id+nids*e.gen] = true
 		}
-		_ = cancelledBeforeReg
-		xs := make([]string, len(got))
-		for j, x := range got {
+	}
+	out := make([]string, nh)
+	for i := range out {
+		xs := make([]string, len(got[i]))
+		for j, x := range got[i] {
 			xs[j] = hx.Zi(x)
 		}
 		out[i] = hx.L(hx.Zi(i+1), hx.L(xs...))
@@ -210,12 +217,12 @@ func c13Case(w *hx.Writer, evs []qev, nids int, tag string) {
 		case 0:
 			ev[i] = hx.L(hx.Zi(0), hx.Zi(e.id), hx.Zi(e.x))
 		case 1:
-			ev[i] = hx.L(hx.Zi(1), hx.Zi(e.id), hx.Zi(e.id+1))
+			ev[i] = hx.L(hx.Zi(1), hx.Zi(e.id), hx.Zi(e.id+nids*e.gen+1))
 		case 2:
-			ev[i] = hx.L(hx.Zi(2), hx.Zi(e.id+1))
+			ev[i] = hx.L(hx.Zi(2), hx.Zi(e.id+nids*e.gen+1))
 		}
 	}
-	hs := make([]string, nids)
+	hs := make([]string, nids*c13Gens)
 	for i := range hs {
 		hs[i] = hx.Zi(i + 1)
 	}
@@ -230,8 +237,10 @@ func c13Case(w *hx.Writer, evs []qev, nids int, tag string) {
 		oracle = hx.Fail("delivery-wrong", "shares handed to the requests differ from: each arrival exactly once, in order, to its own request")
 	}
 	kinds := map[int]bool{}
+	rereg := false
 	for _, e := range evs {
 		kinds[e.kind] = true
+		rereg = rereg || (e.kind == 1 && e.gen > 0)
 	}
 	tags := []string{tag}
 	if kinds[0] && kinds[1] {
@@ -239,6 +248,9 @@ func c13Case(w *hx.Writer, evs []qev, nids int, tag string) {
 	}
 	if kinds[2] {
 		tags = append(tags, "with-cancel")
+	}
+	if rereg {
+		tags = append(tags, "re-registration")
 	}
 	w.Put(hx.Case{Entry: "queryloop", Op: 1, Args: hx.L(hx.L(ev...), hx.L(hs...)), Impl: impl, Oracle: oracle, Tags: tags})
 }
@@ -253,20 +265,51 @@ func c13Enum(nids, L int, emit func([]qev)) {
 			return
 		}
 		for id := 0; id < nids; id++ {
-			rec(append(seq, qev{0, id, nx}), reg, can, nx+1)
+			rec(append(seq, qev{kind: 0, id: id, x: nx}), reg, can, nx+1)
 			if !reg[id] {
 				reg[id] = true
-				rec(append(seq, qev{1, id, 0}), reg, can, nx)
+				rec(append(seq, qev{kind: 1, id: id}), reg, can, nx)
 				reg[id] = false
 			}
 			if !can[id] {
 				can[id] = true
-				rec(append(seq, qev{2, id, 0}), reg, can, nx)
+				rec(append(seq, qev{kind: 2, id: id}), reg, can, nx)
 				can[id] = false
 			}
 		}
 	}
 	rec(nil, make([]bool, nids), make([]bool, nids), 10)
+}
+
+// the same alphabet plus a second registration of an id (a new handle: new context, new reply
+// channel) after the first, and its cancellation
+func c13EnumRereg(nids, L int, emit func([]qev)) {
+	var rec func(seq []qev, reg, can []int, nx int, any bool)
+	rec = func(seq []qev, reg, can []int, nx int, any bool) {
+		if len(seq) == L {
+			if any {
+				emit(append([]qev{}, seq...))
+			}
+			return
+		}
+		for id := 0; id < nids; id++ {
+			rec(append(seq, qev{kind: 0, id: id, x: nx}), reg, can, nx+1, any)
+			if reg[id] < c13Gens {
+				g := reg[id]
+				reg[id]++
+				rec(append(seq, qev{kind: 1, id: id, gen: g}), reg, can, nx, any || g > 0)
+				reg[id]--
+			}
+			for g := 0; g < c13Gens; g++ {
+				if can[id]&(1<<uint(g)) == 0 {
+					can[id] |= 1 << uint(g)
+					rec(append(seq, qev{kind: 2, id: id, gen: g}), reg, can, nx, any)
+					can[id] &^= 1 << uint(g)
+				}
+			}
+		}
+	}
+	rec(nil, make([]int, nids), make([]int, nids), 10, false)
 }
 
 func genC13(rng *hx.Rng, tier string, w *hx.Writer) error {
@@ -282,6 +325,18 @@ func genC13(rng *hx.Rng, tier string, w *hx.Writer) error {
 	for L := 2; L <= maxL3; L++ {
 		c13Enum(3, L, func(s []qev) { all = append(all, s) })
 	}
+	n3 := len(all)
+	rL1, rL2 := 5, 4
+	if tier == "thorough" {
+		rL1, rL2 = 7, 5
+	}
+	for L := 2; L <= rL1; L++ {
+		c13EnumRereg(1, L, func(s []qev) { all = append(all, s) })
+	}
+	n4 := len(all)
+	for L := 3; L <= rL2; L++ {
+		c13EnumRereg(2, L, func(s []qev) { all = append(all, s) })
+	}
 	// run in parallel (each case owns its node), keep the order
 	type res struct {
 		evs  []qev
@@ -290,10 +345,15 @@ func genC13(rng *hx.Rng, tier string, w *hx.Writer) error {
 	}
 	items := make([]res, 0, len(all)+600)
 	for i, s := range all {
-		if i < n2 {
+		switch {
+		case i < n2:
 			items = append(items, res{s, 2, "exhaustive-2ids"})
-		} else {
+		case i < n3:
 			items = append(items, res{s, 3, "exhaustive-3ids"})
+		case i < n4:
+			items = append(items, res{s, 1, "exhaustive-1id-reregistration"})
+		default:
+			items = append(items, res{s, 2, "exhaustive-2ids-reregistration"})
 		}
 	}
 	nRand := 400
@@ -303,28 +363,28 @@ func genC13(rng *hx.Rng, tier string, w *hx.Writer) error {
 	for it := 0; it < nRand; it++ {
 		L := 4 + rng.Intn(7)
 		var s []qev
-		reg := make([]bool, 3)
-		can := make([]bool, 3)
+		reg := make([]int, 3)
+		can := make([]int, 3)
 		nx := 10
 		for len(s) < L {
 			id := rng.Intn(3)
 			switch rng.Intn(6) {
 			case 0:
-				if !reg[id] {
-					reg[id] = true
-					s = append(s, qev{1, id, 0})
+				if reg[id] < c13Gens && (reg[id] == 0 || rng.Chance(60)) {
+					s = append(s, qev{kind: 1, id: id, gen: reg[id]})
+					reg[id]++
 				}
 			case 1:
-				if !can[id] && rng.Chance(50) {
-					can[id] = true
-					s = append(s, qev{2, id, 0})
+				if g := rng.Intn(c13Gens); can[id]&(1<<uint(g)) == 0 && rng.Chance(50) {
+					can[id] |= 1 << uint(g)
+					s = append(s, qev{kind: 2, id: id, gen: g})
 				}
 			case 2:
 				if len(s) > 0 && s[len(s)-1].kind == 0 { // duplicate delivery of the same share
 					s = append(s, s[len(s)-1])
 				}
 			default:
-				s = append(s, qev{0, id, nx})
+				s = append(s, qev{kind: 0, id: id, x: nx})
 				nx++
 			}
 		}
@@ -334,5 +394,66 @@ func genC13(rng *hx.Rng, tier string, w *hx.Writer) error {
 	for _, it := range items {
 		c13Case(w, it.evs, it.nids, it.tag)
 	}
+	c13EndToEnd(rng, tier, w)
 	return nil
+}
+
+// The same property seen from the members that PRODUCE the shares: real handleQuery on every
+// member (the id a member puts on the wire is the id the submitter registers under), request ids of
+// every width - a leading zero byte, one byte, zero - the peers' shares early or late relative to
+// the submitter's registration.  Judge: the peers' shares reached the submitter's recovery stage,
+// i.e. the submitter (and nobody else) made its one report.
+func c13EndToEnd(rng *hx.Rng, tier string, w *hx.Writer) {
+	widths := []int{32, 31, 30, 17, 1, 0}
+	reps := 1
+	if tier == "thorough" {
+		reps = 4
+	}
+	for rep := 0; rep < reps; rep++ {
+		for _, width := range widths {
+			for sched := 0; sched < 2; sched++ {
+				n := 3 + rng.Intn(2)
+				reqID := new(big.Int)
+				if width > 0 {
+					b := rng.Bytes(width)
+					b[0] |= 1
+					reqID.SetBytes(b)
+				}
+				lastRand, seed := c07Rand(rng), c07Rand(rng)
+				subIdx := int(new(big.Int).Mod(new(big.Int).And(lastRand, new(big.Int).SetUint64(^uint64(0))), big.NewInt(int64(n))).Int64())
+				late := map[int]time.Duration{}
+				name := "submitter-late"
+				if sched == 0 {
+					late[subIdx] = 150 * time.Millisecond
+				} else {
+					name = "peers-late"
+					for i := 0; i < n; i++ {
+						if i != subIdx {
+							late[i] = time.Duration(60+rng.Intn(60)) * time.Millisecond
+						}
+					}
+				}
+				// one silent member when the group can afford it: exactly a threshold of shares exists
+				byz := map[int]byzKind{}
+				if n-(n/2+1) >= 1 && rng.Bool() {
+					b := (subIdx + 1) % n
+					byz[b] = byzSilent
+				}
+				o, _, _ := runQuerySystem(rng, n, lastRand, reqID, seed, uint32(onchain.TrafficUserRandom), byz, late, 6*time.Second)
+				oracle := "ok"
+				total := 0
+				for i := range o.reports {
+					total += len(o.reports[i])
+				}
+				switch {
+				case o.panicked:
+					oracle = hx.Fail("collector-panic", "a node goroutine panicked: "+hx.LastPanic)
+				case len(o.reports[subIdx]) != 1 || total != 1:
+					oracle = hx.Fail("share-not-delivered-end-to-end", fmt.Sprintf("request id of %d bytes, %s: the members' shares did not reach the submitter's recovery stage (%d reports, want 1)", width, name, total))
+				}
+				w.Put(hx.Case{Entry: "-", Op: 0, Args: hx.L(hx.Zi(n), hx.Zi(width), hx.Zi(sched), hx.Z(reqID)),
+					Impl: hx.L(hx.Zi(total)), Oracle: oracle, Tags: []string{"end-to-end", fmt.Sprintf("idwidth-%d", width), name, "nt"}})
+			}
+		}
+	}
 }
